@@ -25,7 +25,20 @@ import (
 
 // Component names of an observation, in the order they are compared. The first differing
 // component names the failure signature.
-var components = []string{"syntax", "diags", "notes", "vm-outcome", "vm-output", "vm-hostcalls", "tree-outcome", "tree-output", "tree-hostcalls", "code", "init-order"}
+var components = []string{"syntax", "diags", "notes", "vm-outcome", "vm-output", "vm-hostcalls", "tree-outcome", "tree-output", "tree-hostcalls", "code", "init-order", "repohost-vm"}
+
+// sparseComponents are observed only in the repetitions that carry the extra runs (Observation.Extras):
+// they are compared between two observations only when both carry them.
+var sparseComponents = map[string]bool{"repohost-vm": true}
+
+// Differs tells whether component comp of two observations of the same program differs (a sparse
+// component that one of the two did not observe does not).
+func (o *Observation) Differs(p *Observation, comp string) bool {
+	if sparseComponents[comp] && !(o.Extras && p.Extras) {
+		return false
+	}
+	return o.Get(comp) != p.Get(comp)
+}
 
 // Observation is everything one repetition of analyse + compile + run shows to the host, in a
 // canonical form: every component is a string that must be byte-identical between repetitions.
@@ -72,6 +85,26 @@ type Observation struct {
 	Ran bool `json:"ran"`
 	// Lines of output written by the VM.
 	VMLines int `json:"vm_lines"`
+	// Extras: this repetition also ran its artefacts a second time (repohost.go has the third kind of extra run): VMRerun is what a second
+	// VM built from the SAME compile output showed (outcome and effect log), TreeRerun what a second
+	// interpreter run over the SAME analysed modules showed. Both must equal the first run of the
+	// repetition (VMFirst / TreeFirst render the first run in the same form).
+	Extras    bool   `json:"extras,omitempty"`
+	VMReran   bool   `json:"vm_reran,omitempty"`
+	VMRerun   string `json:"vm_rerun,omitempty"`
+	TreeReran bool   `json:"tree_reran,omitempty"`
+	TreeRerun string `json:"tree_rerun,omitempty"`
+	// RepoHostVM: outcome and output of a full repetition (analyse, compile, run on the VM) with the
+	// repository's own testing hosts instead of the harness hosts ("" unless requested).
+	RepoHostVM string `json:"repohost_vm,omitempty"`
+}
+
+// VMFirst / TreeFirst render the first run of the repetition in the form of VMRerun / TreeRerun.
+func (o *Observation) VMFirst() string   { return runRendering(o.VMOutcome, o.VMEffects) }
+func (o *Observation) TreeFirst() string { return runRendering(o.TreeOutcome, o.TreeEffects) }
+
+func runRendering(outcome, effects string) string {
+	return "outcome: " + outcome + "\n" + effects
 }
 
 // Get returns a component by name.
@@ -99,6 +132,8 @@ func (o *Observation) Get(name string) string {
 		return o.Code
 	case "init-order":
 		return o.InitOrder
+	case "repohost-vm":
+		return o.RepoHostVM
 	}
 	return ""
 }
@@ -115,7 +150,7 @@ func (o *Observation) Hash() string {
 // Diff returns the name of the first differing component ("" when equal).
 func (o *Observation) Diff(p *Observation) string {
 	for _, c := range components {
-		if o.Get(c) != p.Get(c) {
+		if o.Differs(p, c) {
 			return c
 		}
 	}
@@ -129,6 +164,10 @@ type ObsOpts struct {
 	NoTree     bool // the program uses constructs the interpreter does not implement by design
 	NoRun      bool // only analyse and compile
 	InitOrder  bool // record the order of module initialiser calls
+	RepoHost   bool // the extra runs include a repetition with the repository's own testing hosts
+	// extras: run the artefacts of this repetition a second time (set by Observe: the first repetition
+	// of a case and the first one of every fresh process)
+	extras bool
 }
 
 func spanStr(s herrors.Span) string {
@@ -162,14 +201,22 @@ type prepared struct {
 	ob    Observation
 	out   compiler.CompileOutput
 	runVM bool
+	// extras: second runs requested; repo: the program compiled with the repository's testing hosts
+	extras     bool
+	repo       *repoPrepared
+	stepsFirst int64 // VM steps after the first run (exact when the repetition ran on its own)
 }
 
 // prepare performs the sequential part of a repetition: a fresh analysis feeding the
 // interpreter, a second fresh analysis feeding the compiler. Nothing is shared between
 // repetitions.
 func prepare(src drive.Sources, o ObsOpts) *prepared {
-	p := &prepared{}
+	p := &prepared{extras: o.extras}
 	ob := &p.ob
+	ob.Extras = o.extras
+	if o.extras && o.RepoHost && !o.NoRun {
+		p.repo = prepareRepoHost(src)
+	}
 	a1 := analyze(src, o.Templates)
 	a2 := analyze(src, o.Templates)
 	ob.Modules = len(a2.Modules)
@@ -223,6 +270,12 @@ func prepare(src drive.Sources, o ObsOpts) *prepared {
 		ob.TreeOutput = tr.Log.Output()
 		ob.Steps += tr.Steps
 		ob.TreeOutcome = outcomeStr(tr.Outcome.Class, tr.Outcome.Kind, tr.Outcome.Message, tr.Outcome.Span, tr.Outcome.HasSpan)
+		if o.extras {
+			// analysed once, interpreted twice
+			tr2 := drive.RunTree(a1.Modules, src, "main", drive.TreeOpts{StepBudget: o.TreeBudget})
+			ob.TreeReran = true
+			ob.TreeRerun = runRendering(outcomeStr(tr2.Outcome.Class, tr2.Outcome.Kind, tr2.Outcome.Message, tr2.Outcome.Span, tr2.Outcome.HasSpan), tr2.Log.Render())
+		}
 	}
 	p.out, p.runVM = out, true
 	return p
@@ -230,6 +283,9 @@ func prepare(src drive.Sources, o ObsOpts) *prepared {
 
 // finish runs the compiled program on the VM (the step hook must be installed).
 func (p *prepared) finish(src drive.Sources) {
+	if p.repo != nil {
+		defer func() { p.ob.RepoHostVM = p.repo.run() }()
+	}
 	if !p.runVM {
 		return
 	}
@@ -238,6 +294,13 @@ func (p *prepared) finish(src drive.Sources) {
 	p.ob.VMOutput = log.Output()
 	p.ob.VMOutcome = vmOut
 	p.ob.VMLines = strings.Count(p.ob.VMOutput, "\n")
+	p.stepsFirst = vmSteps.Load()
+	if p.extras {
+		// compiled once, run by two VMs one after the other
+		vmOut2, log2 := runVM(p.out, src)
+		p.ob.VMReran = true
+		p.ob.VMRerun = runRendering(vmOut2, log2.Render())
+	}
 }
 
 // The VM step hook is process-global; one counter and one budget serve all VMs that run
@@ -256,11 +319,12 @@ func installStepHook(budget int64) func() {
 
 // Observe performs one repetition on its own.
 func Observe(src drive.Sources, o ObsOpts) Observation {
+	o.extras = true
 	p := prepare(src, o)
-	done := installStepHook(20_000_000)
+	done := installStepHook(3 * 20_000_000)
 	p.finish(src)
 	done()
-	p.ob.Steps += vmSteps.Load()
+	p.ob.Steps += p.stepsFirst
 	return p.ob
 }
 
@@ -269,6 +333,7 @@ func Observe(src drive.Sources, o ObsOpts) Observation {
 // idle time; the VMs share nothing but the process).
 func ObserveMany(src drive.Sources, o ObsOpts, k int) []Observation {
 	ps := make([]*prepared, k)
+	o.extras = false // the second runs belong to the repetitions that run on their own (Observe)
 	for i := range ps {
 		ps[i] = prepare(src, o)
 	}
